@@ -350,10 +350,26 @@ def r5_loader(ctx, rule):
     else:
         ctx.unk(rule, mq, 'the loop that loads the length-indexed files is not in a recognised form')
     lf = ctx.fn(SG + '_load_from_file')
-    if 'grammar_counter[split_values[0]] = float(split_values[1])' in U(lf):
-        ctx.ok(rule, SG + '_load_from_file', 'table[value] = float(probability)')
+    # table[field 0] = float(field 1), whatever the split result is called / however it is bound
+    tabp = params(lf)[0]
+    lstores = stores_in(lf)
+    st_ = [n for n in walk_local(lf) if isinstance(n, ast.Assign) and isinstance(n.targets[0], ast.Subscript) and U(n.targets[0].value) == tabp]
+    good = None
+    if len(st_) == 1:
+        key = expand(lf, st_[0].targets[0].slice, lstores)
+        val = expand(lf, st_[0].value, lstores)
+        kt, vt = U(key), U(val)
+        import re as _re
+        mk = _re.fullmatch(r"(.+)\.split\('\\t'\)\[0\]", kt)
+        mv = _re.fullmatch(r"float\((.+)\.split\('\\t'\)\[1\]\)", vt)
+        good = bool(mk and mv and mk.group(1) == mv.group(1))
+        facts_ = {'key': kt, 'value': vt}
+    if good:
+        ctx.ok(rule, SG + '_load_from_file', 'table[value] = float(probability)', facts_)
+    elif good is False:
+        ctx.bad(rule, SG + '_load_from_file', 'record use %s' % facts_, 'table[field 0] = float(field 1) of the same TAB-split line', facts_, lf)
     else:
-        ctx.bad(rule, SG + '_load_from_file', 'record use', 'table[value] = probability', None, lf)
+        ctx.unk(rule, SG + '_load_from_file', 'the store into the scorer table is not recognised')
 
 
 def _splice(ctx, rule):
